@@ -99,3 +99,56 @@ func (v *VerifQM) Next() (int, int, int) {
 	}
 	return -4, cur, v.qm.Len()
 }
+
+// VerifLoadJobConfigs applies WithJobId(ids...) on top of a generator that returns gen.
+func VerifLoadJobConfigs(gen string, ids []string) string {
+	c := newConfig()
+	c.jobIdGenerator = func() string { return gen }
+	opts := make([]JobConfigFunc, len(ids))
+	for i, id := range ids {
+		opts[i] = WithJobId(id)
+	}
+	return loadJobConfigs(c, opts...).Id
+}
+
+func VerifGroupId(id string) string { return generateGroupId(id) }
+
+// VerifNilHelper runs Func/ErrFunc/ResultFunc on a job whose function is nil (or not) and reports what happens.
+func VerifNilHelper(kind int, isNil bool) (out string) {
+	defer func() {
+		if r := recover(); r != nil {
+			if r == errNilFunction {
+				out = "panicNil"
+			} else {
+				out = "panicOther"
+			}
+		}
+	}()
+	switch kind {
+	case 0:
+		var f func()
+		if !isNil {
+			f = func() {}
+		}
+		Func()(newJob(f, jobConfigs{}))
+		return "ran"
+	case 1:
+		var f func() error
+		if !isNil {
+			f = func() error { return nil }
+		}
+		if err := ErrFunc()(newJob(f, jobConfigs{})); err == errNilFunction {
+			return "errNil"
+		}
+		return "ran"
+	default:
+		var f func() (int, error)
+		if !isNil {
+			f = func() (int, error) { return 1, nil }
+		}
+		if _, err := ResultFunc[int]()(newJob(f, jobConfigs{})); err == errNilFunction {
+			return "errNil"
+		}
+		return "ran"
+	}
+}
